@@ -45,10 +45,16 @@ def run_cases(ctx, binp, cases, name, shard):
             c["oracle_fail"] = (c["impl"].index("panic"), "panic")
     # model side, compared inside Coq; a case whose implementation panicked has no observations to compare
     todo = [c for c in cases if "panic" not in c["impl"] and len(c["impl"]) == len(c["ops"])]
-    outs, chunks = vlib.coq_eval_sharded(
-        ctx, name, fl.COQ_HEADER, todo,
-        lambda ch: fl.render_cases([(c["backend"] == "mem", c["U"], c["ops"], c["impl"]) for c in ch]),
-        shard=shard, timeout=1500)
+    # at most four coqc processes at a time (the machine is shared)
+    outs, chunks = [], []
+    group = 4 * shard
+    for gi in range(0, max(len(todo), 1), group):
+        o1, c1 = vlib.coq_eval_sharded(
+            ctx, "%s_%d" % (name, gi // group), fl.COQ_HEADER, todo[gi:gi + group],
+            lambda ch: fl.render_cases([(c["backend"] == "mem", c["U"], c["ops"], c["impl"]) for c in ch]),
+            shard=shard, timeout=1500)
+        outs += o1
+        chunks += c1
     ok = True
     for (rc, o), ch in zip(outs, chunks):
         vals = parse_evals(o) if rc == 0 else []
@@ -103,12 +109,12 @@ def gen_cases(ctx):
             U, ops, st = fl.gen_world_case(r, r.range(33, 44), 60, deep=True)
             add("deep", backend, U, ops, st)
     # general histories: 1-25 segments, up to 40 commands, heads / mid-segment / write_facts / merges
-    for _ in range(400 if T else 26):
+    for _ in range(400 if T else 36):
         nseg = r.choice([1, 2, 3, 5, 8, 12, 18, 25])
         U, ops, st = fl.gen_world_case(r, nseg, 40)
         add("history", "file" if r.chance(2, 5) else "mem", U, ops, st)
     # many mid-size segments so that mid-segment priors get written out as indexes (two layers per segment)
-    for _ in range(60 if T else 6):
+    for _ in range(60 if T else 8):
         U, ops, st = fl.gen_world_case(r, r.range(20, 30), 120)
         add("long", "file" if r.chance(1, 3) else "mem", U, ops, st)
     for _ in range(40 if T else 4):
@@ -124,8 +130,7 @@ def run(ctx):
     if not binp:
         return
     cases = gen_cases(ctx)
-    if not run_cases(ctx, binp, cases, "c12", shard=(len(cases) + 5) // 6 if ctx.thorough else (len(cases) + 3) // 4):
-        pass
+    run_cases(ctx, binp, cases, "c12", shard=12)
     bad, mism = report(ctx, cases, "storage")
     steps = sum(len(c["ops"]) for c in cases)
     nq = sum(len(c["U"].names) * (len(c["U"].keys) + len(c["U"].prefixes)) * sum(1 for g in c["impl"] if g not in (None, "panic"))
